@@ -351,7 +351,7 @@ RULES = {
     "R18": [("map_or(0, String::len)", "map_or(0, |s: &String| -> (r: usize) ensures r == byte_len(s@) { s.len() })")],
     # R17 (computed): `v.iter().map(f).max()` -> shim `v.vmax_map(f)`, `.min()` -> `v.vmin_map(f)`; `m.values().map(f).max()` -> `m.vmax_values_map(f)`
     "R17": [],
-    # R13 (computed): `v.iter().filter_map(f).max()` (provided trait methods) -> shim `v.vmax_filter_map(f)`
+    # R13 (computed): `v.iter().filter_map(f).max()` (provided trait methods) -> shim `v.vmax_filter_map(f)`; `.count()` -> `v.vcount_filter_map(f)`
     "R13": [],
     # R15: `String::add(&str)` (its std signature cannot be matched by assume_specification: two lifetime binders) -> shim method
     "R15": [(".add(", ".vadd(")],
@@ -360,6 +360,10 @@ RULES = {
     # R12: `v.into_iter().enumerate()` (Iterator::enumerate is a provided trait method: Verus accepts no specification for
     # it) becomes the shim `v.venumerate()`: the eagerly built vector of (index, element) pairs
     "R12": [(".into_iter().enumerate()", ".venumerate()")],
+    # R27: `.lock()` on the state mutex -> shim method `.vlock_late()` whose precondition is the token fact "the user-supplied
+    # format code of this record has already run" (C10: the state lock is never held while format / Display code runs, which may log
+    # recursively and would re-lock the mutex on the same thread); same result specification as the prelude's Mutex::lock
+    "R27": [(".lock()", ".vlock_late()")],
     # R5l (computed, see apply_rule): every byte-string literal b".." (Verus gives byte-string literals no value)
     # becomes a constant VLIT_<hex bytes>, defined at the template's `//@ literals` line as an exec const whose body is
     # the literal and whose view is the sequence of its bytes (same scheme as R5 bytesconst)
@@ -455,9 +459,10 @@ def apply_rule(sf, a, b, rule, edits):
                 open_k = sigidx[p + len(pat) - 1]
                 close_k = sf.br[open_k]
                 tail = [k for k in sigidx if k > close_k][:4]
-                if [toks[k].text for k in tail] != [".", "max", "(", ")"]:
+                tt = [toks[k].text for k in tail]
+                if tt not in ([".", "max", "(", ")"], [".", "count", "(", ")"]):
                     continue
-                edits.replace(sigidx[p], sigidx[p + 5] + 1, [Piece(".vmax_filter_map", sf, toks[sigidx[p]].start)])
+                edits.replace(sigidx[p], sigidx[p + 5] + 1, [Piece(".v%s_filter_map" % tt[1], sf, toks[sigidx[p]].start)])
                 edits.replace(tail[0], tail[3] + 1, [Piece("")])
                 hits += 1
         return hits
@@ -706,6 +711,25 @@ def eval_cfg(toks, features):
     return pred()
 
 
+def item_cfg_false(sf, it):
+    """one of the item's own `#[cfg(..)]` attributes is false under the unit's feature set"""
+    toks = sf.toks
+    k = it.start
+    while k < it.first:
+        if toks[k].text == "#":
+            n = sf.next_sig(k + 1)
+            if toks[n].text == "[":
+                close = sf.br[n]
+                inner = [x for x in toks[n + 1:close] if x.kind not in TRIVIA]
+                if inner and inner[0].text == "cfg" and len(inner) > 1 and inner[1].text == "(":
+                    if not eval_cfg(inner[2:-1], FEATURES):
+                        return True
+                k = close + 1
+                continue
+        k += 1
+    return False
+
+
 def cfg_edits(sf, a, b, features, ed):
     """returns (n_true, n_false)"""
     toks = sf.toks
@@ -835,6 +859,7 @@ class Directive:
         self.span_before = False
         self.span_tail = False
         self.span_block = None
+        self.span_block_nth = None
         self.bytesconst = False
         self.execconst = None
         self.derivedefault = False
@@ -1071,11 +1096,26 @@ def _render_span(d, it, repo_root, registry):
         u = None
         end = e + 1
     elif d.span_block:
-        b = find_seq(sf, it.body_open, it.body_close, d.span_block)
-        if not b:
-            raise ExtractError("anchor lost: block anchor %r not found in %s" % (d.span_block, it.name))
-        if find_seq(sf, b[1] + 1, it.body_close, d.span_block):
-            raise ExtractError("anchor lost: block anchor %r is ambiguous in %s" % (d.span_block, it.name))
+        if d.span_block_nth:
+            # `blocknth k/n <text>`: the k-th of exactly n occurrences of the text
+            kth, total = d.span_block_nth
+            occ = []
+            pos = it.body_open
+            while True:
+                b = find_seq(sf, pos, it.body_close, d.span_block)
+                if not b:
+                    break
+                occ.append(b)
+                pos = b[1] + 1
+            if len(occ) != total:
+                raise ExtractError("anchor lost: block anchor %r occurs %d times in %s, contract expects %d" % (d.span_block, len(occ), it.name, total))
+            b = occ[kth - 1]
+        else:
+            b = find_seq(sf, it.body_open, it.body_close, d.span_block)
+            if not b:
+                raise ExtractError("anchor lost: block anchor %r not found in %s" % (d.span_block, it.name))
+            if find_seq(sf, b[1] + 1, it.body_close, d.span_block):
+                raise ExtractError("anchor lost: block anchor %r is ambiguous in %s" % (d.span_block, it.name))
         j = b[1] + 1
         while j < it.body_close and toks[j].kind in TRIVIA:
             j += 1
@@ -1381,7 +1421,7 @@ def render_item(d, it, repo_root, registry):
     return out
 
 
-OPTION_KW = ("ret", "req", "ens", "props", "loop", "closure", "rule", "attr", "dropattr", "canary", "rename", "prefix", "from", "upto", "uptosemi", "before", "tail", "block", "bytesconst", "count", "execconst", "derivedefault", "unmodelled")
+OPTION_KW = ("ret", "req", "ens", "props", "loop", "closure", "rule", "attr", "dropattr", "canary", "rename", "prefix", "from", "upto", "uptosemi", "before", "tail", "block", "blocknth", "bytesconst", "count", "execconst", "derivedefault", "unmodelled")
 _lab_re = re.compile(r"^(req|ens|inv)(\[([^\]]+)\])?\s+(.*)$", re.S)
 
 
@@ -1485,6 +1525,11 @@ def parse_options(d, lines, unit_name):
             # the span is the first `{...}` block that follows the text (e.g. the body of a match arm `Ok(mut buffer) =>`),
             # braces included: it becomes the body of the wrapper function in the template
             d.span_block = rest
+        elif w == "blocknth":
+            # `blocknth k/n <text>`: like `block`, for the k-th of exactly n occurrences of the text in the function
+            kn, txt = rest.split(None, 1)
+            d.span_block_nth = tuple(int(x) for x in kn.split("/"))
+            d.span_block = txt
         elif w == "tail":
             # the span is the tail expression of the function body (what follows the last `;` at the top level of the body)
             d.span_tail = True
@@ -1599,6 +1644,9 @@ def expand(template_path, repo_root, verif_root, registry, _depth=0):
             raise ExtractError("anchor lost: %s does not exist" % arg1)
         sf = SourceFile.get(path)
         for it in sf.find(arg2):
+            if item_cfg_false(sf, it):
+                # a platform / feature alternative of the same name that is not compiled under the unit's cfg (rule CFG)
+                continue
             idx = len(registry)
             out.append(Piece("", label="M:begin:%d" % idx))
             out.extend(render_item(d, it, repo_root, registry))
